@@ -228,9 +228,10 @@ R1_COMMON = [
 ]
 
 
-def find_loops(body):
-    """Offsets just after the closing ')' of each while/for header, in textual
-    order; `do {..} while(..);` tails are skipped."""
+def find_loops(body, include_do=False):
+    """Offsets at which a loop contract is inserted, in textual order: just after the closing ')' of each while/for header; `do {..} while(..);` loops
+    are counted only on request (loops={'do_while': True, ...}, so that the ordinals of older recipes stay as they are) and take their contract right
+    after the keyword `do` (the only place where CBMC 6.11 accepts it)."""
     _, mask = blank_comments(body)
     res = []
     for m in re.finditer(r'\b(while|for)\s*\(', body):
@@ -243,17 +244,20 @@ def find_loops(body):
             while t < len(body) and body[t] in ' \t\r\n':
                 t += 1
             if t < len(body) and body[t] == ';':
-                # do-while tail (or empty-body while, which we never have under contract)
-                continue
-        res.append(q + 1)
-    return res
+                continue   # do-while tail (or empty-body while, which we never have under contract)
+        res.append((m.start(), q + 1))
+    if include_do:
+        for m in re.finditer(r'\bdo\b(?=\s*\{)', body):
+            if not mask[m.start()]:
+                res.append((m.start(), m.end()))
+    return [off for _, off in sorted(res)]
 
 
 def splice_loops(body, loops, what):
     """loops: {ordinal: 'contract text'}; inserted on the same line as the loop header."""
     if not loops:
         return body
-    offs = find_loops(body)
+    offs = find_loops(body, bool(loops.get('do_while')))
     for o in loops:
         if isinstance(o, int) and o >= len(offs):
             raise Broken('EXTRACTION-BROKEN %s: loop ordinal %d not found (%d loops)' % (what, o, len(offs)))
@@ -322,7 +326,7 @@ def render_func(fs, info):
         fired += f2
     loop_lines = []
     if fs.loops:
-        _offs = find_loops(body)
+        _offs = find_loops(body, bool(fs.loops.get('do_while')))
         for _o in sorted(k for k in fs.loops if isinstance(k, int)):
             if _o < len(_offs):
                 loop_lines.append(loc.line_body + dropped_lines + body.count('\n', 0, _offs[_o]))
